@@ -17,6 +17,7 @@ PROG_CLASSES = [
     ("boolnest", 200, 8000),
     ("dead", 200, 8000),
     ("forms", 300, 12000),
+    ("chains", 300, 12000),
 ]
 
 
@@ -84,6 +85,68 @@ def shadows_for_builtins(src):
             return True
         if isinstance(n, ast.Name) and isinstance(n.ctx, ast.Store) and n.id in ("iter", "next"):
             return True
+    return False
+
+
+def boolop_hoisting_prone(src):
+    """static witness of mechanism D8, read off the SOURCE (not off the
+    library's call stack, which a refactoring changes): the front end lowers an
+    and/or that it reaches through operands of and/or, comparisons, binary
+    operations and positional call arguments.  It evaluates such an and/or
+    eagerly, in front of the enclosing expression, when (i) it sits below a
+    comparison / binary operation / call argument, or (ii) it sits in the LAST
+    operand of an enclosing and/or (the last two operands of a chain are
+    lowered together, earlier ones lazily).  Everything else (an and/or at the
+    root of a statement's expression, in a non-last operand, under not / a
+    conditional expression / subscript / lambda / comprehension ...) is either
+    lowered lazily or left to Python."""
+    try:
+        t = ast.parse(src)
+    except SyntaxError:
+        return False
+
+    def reached(node):
+        """and/or nodes the lowering reaches below `node`"""
+        out = []
+        if isinstance(node, ast.BoolOp):
+            out.append(node)
+            for v in node.values:
+                out += reached(v)
+        elif isinstance(node, ast.Compare):
+            for v in [node.left] + list(node.comparators):
+                out += reached(v)
+        elif isinstance(node, ast.BinOp):
+            out += reached(node.left) + reached(node.right)
+        elif isinstance(node, ast.Call):
+            for v in node.args:
+                out += reached(v)
+        return out
+
+    def prone(node):
+        if isinstance(node, ast.BoolOp):
+            if reached(node.values[-1]):
+                return True
+            return any(prone(v) for v in node.values)
+        if isinstance(node, ast.Compare):
+            kids = [node.left] + list(node.comparators)
+        elif isinstance(node, ast.BinOp):
+            kids = [node.left, node.right]
+        elif isinstance(node, ast.Call):
+            kids = list(node.args)
+        else:
+            return False
+        return any(reached(k) for k in kids)
+
+    for st in ast.walk(t):
+        if not isinstance(st, ast.stmt):
+            continue
+        for f, v in ast.iter_fields(st):
+            if isinstance(v, ast.expr) and prone(v):
+                return True
+            if isinstance(v, list):
+                for x in v:
+                    if isinstance(x, ast.expr) and prone(x):
+                        return True
     return False
 
 
